@@ -13,3 +13,23 @@ if [ -f /verif/harness/puppet/puppet.c ]; then
     cc -O1 -g -pthread -o /verif/target/puppet.tmp /verif/harness/puppet/puppet.c -ldl && mv /verif/target/puppet.tmp /verif/target/puppet
   fi
 fi
+
+# ELF / non-ELF fixture files (generated, never committed)
+F=/verif/target/fixtures
+if [ ! -f $F/.done ] || [ /verif/build.sh -nt $F/.done ]; then
+  rm -rf $F; mkdir -p $F
+  printf 'int fix_fn(int x){return x+1;}\nint fix_data[64]={1,2,3};\n' > $F/fix.c
+  cc -shared -fPIC -O1 -o $F/libfix_sha1.so $F/fix.c -Wl,--build-id=sha1 -Wl,-soname,libfixsha1.so.1
+  cc -shared -fPIC -O1 -o $F/libfix_none.so $F/fix.c -Wl,--build-id=none
+  cc -shared -fPIC -O1 -o $F/libfix_zero.so $F/fix.c -Wl,--build-id=0x00000000000000000000000000000000 -Wl,-soname,libfixzero.so
+  cc -shared -fPIC -O1 -o $F/libfix_8.so $F/fix.c -Wl,--build-id=0x0102030405060708 -Wl,-soname,libfix8.so.2
+  cc -shared -fPIC -O1 -o $F/libfix_nosoname.so $F/fix.c -Wl,--build-id=sha1
+  cp $F/libfix_sha1.so "$F/lib with space.so"
+  cp $F/libfix_nosoname.so "$F/$(printf 'libnonascii_\303\251.so')"
+  cp $F/libfix_nosoname.so $F/libver.so.6.0.32
+  cp $F/libfix_nosoname.so $F/libver2.so.3.34.2rc5
+  cp $F/libfix_sha1.so $F/libdeleted.so
+  head -c 12288 /dev/zero | tr '\0' 'x' > $F/plain.bin
+  head -c 100 $F/libfix_sha1.so > $F/truncated.so; head -c 8192 /dev/zero >> $F/truncated.so
+  touch $F/.done
+fi
